@@ -8,7 +8,7 @@ length function `get_item_opt` hands to `index` for each repr, the object-repr s
 Every item checks the *shape* of the code it summarises (raises KeyError otherwise = missing item =
 broken tie), so the summary cannot silently drift from the source."""
 import re
-from extract_tables import item, read, fn_body, lean_str
+from extract_tables import item, read, fn_body, lean_str, const
 
 OPS = "minijinja/src/value/ops.rs"
 VMOD = "minijinja/src/value/mod.rs"
@@ -390,3 +390,270 @@ def _indexable(repo):
         raise KeyError("no Object impls with get_value")
     lean = "def c09IndexableObjects : List (String × String) := %s" % _pairs(found)
     return found, lean
+
+
+# ------------------------------------------------------------------------------------------
+# deepening round 5: conversion sites, every object implementation, repetitions, reversed views
+INT_TYPES = ("u8", "u16", "u32", "u64", "u128", "i8", "i16", "i32", "i64", "i128", "usize", "isize")
+
+
+def _triples(ps):
+    return "[" + ", ".join("(%s, %s, %s)" % (lean_str(a), lean_str(b), lean_str(c)) for a, b, c in ps) + "]"
+
+
+def _rs_files(repo, sub):
+    import os
+    root = os.path.join(repo, sub)
+    for dp, _, fs in sorted(os.walk(root)):
+        for fn in sorted(fs):
+            if fn.endswith(".rs"):
+                yield os.path.relpath(os.path.join(dp, fn), repo)
+
+
+def _strip_docs(src):
+    return re.sub(r"^\s*//[^\n]*$", "", src, flags=re.M)
+
+
+@item("C09_CONVERSION_SITES")
+def _conversion_sites(repo):
+    """every place where a template value becomes a subscript, a slice bound / step, a position or
+    a count: (site, conversion function, target type).  `slice_bound` for the three parts of a
+    slice, `as_i64+isize` for `get_item_opt::index`, `as_usize` wherever the source says
+    `.as_usize()` on a key / count, `try_from` for the integer-typed parameters and keyword
+    arguments of filters, functions and tests (`ArgType` goes through `TryFrom<Value>`, i.e.
+    `primitive_int_try_from!`), and the sites that take no value at all (`loop.cycle`,
+    `get_item_by_index`, the numeric parts of attribute paths)."""
+    sites = []
+    ops = _nocomment(read(repo, OPS))
+    body = fn_body(ops, r"pub fn slice\(value: Value, start: Value, stop: Value, step: Value\)")
+    for part in ("start", "stop", "step"):
+        if not re.search(r"ok!\(slice_bound\(%s\)\)" % part, body):
+            raise KeyError("slice: conversion of " + part)
+        sites.append(("ops::slice." + part, "slice_bound", "i64"))
+    vm = _nocomment(read(repo, VMOD))
+    gi = fn_body(vm, r"pub\(crate\) fn get_item_opt\(&self, key: &Value\) -> Option<Value>")
+    if "value.as_i64().and_then(|v| isize::try_from(v).ok())" not in gi:
+        raise KeyError("get_item_opt::index conversion")
+    sites.append(("get_item_opt::index", "as_i64+isize", "isize"))
+    if "self.get_item(&Value(ValueRepr::U64(idx as _)))" not in vm:
+        raise KeyError("get_item_by_index")
+    sites.append(("Value::get_item_by_index", "u64-wrap", "usize"))
+    gp = fn_body(vm, r"pub\(crate\) fn get_path\(&self, path: &str\) -> Result<Value, Error>")
+    if "part.parse::<usize>()" not in gp or "rv.get_item_by_index(num)" not in gp:
+        raise KeyError("get_path")
+    sites.append(("Value::get_path.part", "parse-usize", "usize"))
+    # every `.as_usize()` / `.as_i64()` outside value/mod.rs's own definitions
+    for rel in list(_rs_files(repo, "minijinja/src")) + list(_rs_files(repo, "minijinja-contrib/src")):
+        src = _strip_docs(read(repo, rel))
+        for m in re.finditer(r"(\w+)\.as_usize\(\)", src):
+            # the enclosing fn
+            fns = re.findall(r"fn\s+(\w+)\s*[<(]", src[:m.start()])
+            fn = fns[-1] if fns else "?"
+            owner = ""
+            if fn == "get_value":
+                impls = re.findall(r"impl(?:<[^>{]*>)?\s+Object\s+for\s+([^\{]+?)\s*(?:\bwhere\b[^\{]*)?\{", src[:m.start()])
+                owner = (re.sub(r"\s+", " ", impls[-1]).strip() + "::") if impls else ""
+            where = "%s:%s%s.%s" % (rel.split("/")[-1], owner, fn, m.group(1))
+            if rel.endswith("vm/context.rs") or rel.endswith("vm/mod.rs") or rel.endswith("syntax.rs") or rel.endswith("serialize.rs"):
+                continue    # internal bookkeeping values (closure handles, stack depth), never a template's subscript
+            sites.append((where, "as_usize", "usize"))
+    # typed parameters / keyword arguments
+    for rel in ("minijinja/src/filters.rs", "minijinja/src/functions.rs", "minijinja/src/tests.rs",
+                "minijinja-contrib/src/filters/mod.rs", "minijinja-contrib/src/globals.rs"):
+        try:
+            src = _strip_docs(read(repo, rel))
+        except FileNotFoundError:
+            continue
+        for m in re.finditer(r"pub fn (\w+)\s*(?:<[^>]*>)?\s*\(([^)]*)\)", src):
+            name, params = m.group(1), m.group(2)
+            for pm in re.finditer(r"(\w+)\s*:\s*(?:Option<)?(%s)>?\s*(?:,|$)" % "|".join(INT_TYPES), params):
+                sites.append(("%s:%s.%s" % (rel.split("/")[-1] if "contrib" not in rel else "contrib/" + rel.split("/")[-1], name, pm.group(1)), "try_from", pm.group(2)))
+            body_m = src[m.end():]
+            # keyword arguments read inside the function (up to the next `pub fn`)
+            nxt = re.search(r"\n\s*pub fn ", body_m)
+            fbody = body_m[:nxt.start()] if nxt else body_m
+            for km in re.finditer(r"get::<(?:Option<)?(%s)>?>\(\"(\w+)\"\)" % "|".join(INT_TYPES), fbody):
+                sites.append(("%s:%s.%s" % (rel.split("/")[-1] if "contrib" not in rel else "contrib/" + rel.split("/")[-1], name, km.group(2)), "try_from", km.group(1)))
+    # loop.cycle: the loop's own counter modulo the number of arguments
+    lo = _nocomment(read(repo, "minijinja/src/vm/loop_object.rs"))
+    if not re.search(r"let idx = self\.idx\.load\(Ordering::Relaxed\);\s*match args\.get\(idx % args\.len\(\)\)", lo):
+        raise KeyError("loop.cycle")
+    sites.append(("loop.cycle", "internal-index", ""))
+    # the integer types `TryFrom<Value>` exists for
+    arg = read(repo, ARGT)
+    types = re.findall(r"^primitive_int_try_from!\((\w+)\);", arg, re.M)
+    if not types or any(t not in INT_TYPES for t in types):
+        raise KeyError("primitive_int_try_from instances")
+    seen, uniq = set(), []
+    for s_ in sites:
+        if s_ not in seen:
+            seen.add(s_)
+            uniq.append(s_)
+    lean = ("def c09ConversionSites : List (String × String × String) := %s\n"
+            "def c09IntTypes : List String := %s" % (_triples(uniq), _lst(types)))
+    return {"sites": uniq, "types": types}, lean
+
+
+@item("C09_REPEATED")
+def _repeated(repo):
+    """`ops::repeat_iterable` and `struct Repeated`: the limit, the normalisation of empty operands,
+    the collapse of nested repetitions, what is enumerated and which length is announced"""
+    src = _nocomment(read(repo, OPS))
+    body = re.sub(r"\s+", " ", fn_body(src, r"fn repeat_iterable\(n: &Value, seq: &DynObject\) -> Result<Value, Error>"))
+    need = ["let n = ok!(n.as_usize().ok_or_else(",
+            "let len = ok!(seq.enumerator_len().ok_or_else(",
+            "let total = match len.checked_mul(n) { Some(total) if total <= MAX_REPEATED_STRING_LEN => total,",
+            "let n = if len == 0 { 0 } else { n };",
+            "let (seq, len, n) = match seq.downcast_ref::<Repeated>() { Some(inner) => ( inner.seq.clone(), inner.len, if total == 0 { 0 } else { inner.n * n }, ), None => (seq.clone(), len, n), };",
+            "Ok(Value::from_object(Repeated { seq, len, n, total }))"]
+    pos = -1
+    for piece in need:
+        k = body.find(piece)
+        if k < 0 or k < pos:
+            raise KeyError("repeat_iterable shape: " + piece[:40])
+        pos = k
+    m = re.search(r"_ => \{ return Err\(Error::new\( ErrorKind::(\w+), \"(repeated sequence is too large)\", \)\) \}", body)
+    if not m:
+        raise KeyError("repeat_iterable: too-large error")
+    rep = re.sub(r"\s+", " ", fn_body(src, r"impl Object for Repeated\s*\{"))
+    if "ObjectRepr::Iterable" not in rep or "Box::new(LenIterWrap( this.total, (0..this.n).flat_map(move |_| { this.seq.try_iter()" not in rep:
+        raise KeyError("Repeated::enumerate shape")
+    liw = re.sub(r"\s+", " ", fn_body(src, r"impl<I: Iterator<Item = Value> \+ Send \+ Sync> Iterator for LenIterWrap<I>\s*\{"))
+    if "(self.0, Some(self.0))" not in liw or "self.1.next()" not in liw:
+        raise KeyError("LenIterWrap")
+    mx = const(read(repo, OPS), "MAX_REPEATED_STRING_LEN")
+    lean = ("def c09RepeatedMax : Nat := %d\n"
+            "def c09RepeatedTooLarge : String × String := (%s, %s)" % (mx, lean_str(m.group(1)), lean_str(m.group(2))))
+    return {"max": mx, "error": [m.group(1), m.group(2)]}, lean
+
+
+@item("C09_OBJECT_IMPLS")
+def _object_impls(repo):
+    """every `impl Object for T` of the engine and of minijinja-contrib with its `ObjectRepr`
+    (`dynamic` = decided at run time) and the enumerator it builds, the variants of `Enumerator`
+    and `ObjectRepr`, and the macro instantiations that stamp out implementations for the std
+    collections.  The C09 harness must slice and subscript a value of every implementation whose
+    representation is `Seq` or `Iterable` (lib/props/c09.py checks it)."""
+    import os
+    found = []
+    for rel in list(_rs_files(repo, "minijinja/src")) + list(_rs_files(repo, "minijinja-contrib/src")):
+        src = read(repo, rel)
+        code = re.sub(r"^\s*//[/!].*$", "", src, flags=re.M)
+        code = re.sub(r"//[^\n]*", "", code)
+        for m in re.finditer(r"\bimpl(?:<[^>{]*>)?\s+Object\s+for\s+([^\{]+?)\s*(?:\bwhere\b[^\{]*)?\{", code):
+            name = re.sub(r"\s+", " ", m.group(1)).strip()
+            body = fn_body(code[m.start():], r"\{")
+            rm = re.search(r"fn repr\s*\(", body)
+            if rm:
+                rb = fn_body(body[rm.start():], r"\)\s*->\s*ObjectRepr\s*\{")
+                reprs = re.findall(r"ObjectRepr::(\w+)", rb)
+                repr_ = reprs[0] if len(set(reprs)) == 1 else "dynamic"
+                if not reprs:
+                    repr_ = "dynamic"
+            else:
+                repr_ = "Map"        # the default of the trait
+            em = re.search(r"fn enumerate\s*\(", body)
+            if em:
+                eb = fn_body(body[em.start():], r"\)\s*->\s*Enumerator\s*\{")
+                hows = re.findall(r"Enumerator::(\w+)|\b(mapped_(?:rev_)?(?:key_value_)?enumerator)\b|\.\$(enumerator)\b", eb)
+                how = "+".join(sorted(set(x for t in hows for x in t if x))) or "other"
+            else:
+                how = "default"
+            if "#[cfg(test)]" in code[:m.start()]:
+                continue
+            found.append(((("contrib/" if "contrib" in rel else "") + os.path.basename(rel) + ":" + name), repr_, how))
+    if not found:
+        raise KeyError("no Object impls")
+    obj = read(repo, "minijinja/src/value/object.rs")
+    code = re.sub(r"//[^\n]*", "", obj)
+    variants = re.findall(r"^\s{4}([A-Z]\w*)(?:\(.*\))?,\s*$", fn_body(code, r"pub enum Enumerator\s*\{"), re.M)
+    reprs = re.findall(r"^\s{4}([A-Z]\w*),\s*$", fn_body(code, r"pub enum ObjectRepr\s*\{"), re.M)
+    macros = re.findall(r"^\s*(impl_value_vec|impl_value_iterable|impl_value_map|impl_str_map)!\((\w+)(?:,\s*(\w+))?\);", code, re.M)
+    if len(variants) < 9 or len(reprs) != 4 or not macros:
+        raise KeyError("Enumerator / ObjectRepr / collection macros")
+    # the trait's default representation
+    tr = fn_body(code, r"pub trait Object: fmt::Debug \+ Send \+ Sync\s*\{")
+    dm = re.search(r"fn repr\(self: &Arc<Self>\) -> ObjectRepr \{\s*ObjectRepr::(\w+)\s*\}", tr)
+    if not dm or dm.group(1) != "Map":
+        raise KeyError("Object::repr default")
+    # every arm of try_iter / query_len handles every variant
+    ti = fn_body(code, r"\$vis fn try_iter\(self: \$self_ty\) -> Option<Box<dyn Iterator<Item = Value> \+ Send \+ Sync>>")
+    ql = fn_body(code, r"fn query_len\(&self\) -> Option<usize>")
+    for v in variants:
+        if "Enumerator::" + v not in ti or "Enumerator::" + v not in ql:
+            raise KeyError("try_iter / query_len arm for " + v)
+    exact = re.findall(r"Enumerator::(\w+)\(i\) => match i\.size_hint\(\) \{\s*\(a, Some\(b\)\) if a == b => a,\s*_ => return None,\s*\}", ql)
+    if sorted(exact) != ["Iter", "KeyValueIter", "RevIter", "RevKeyValueIter"]:
+        raise KeyError("query_len: exact size hints")
+    mac = [(a, b, c) for a, b, c in macros]
+    lean = ("def c09ObjectImpls : List (String × String × String) := %s\n"
+            "def c09EnumeratorVariants : List String := %s\n"
+            "def c09ObjectReprs : List String := %s\n"
+            "def c09CollectionMacros : List (String × String × String) := %s"
+            % (_triples(found), _lst(variants), _lst(reprs), _triples(mac)))
+    return {"impls": found, "variants": variants, "reprs": reprs, "macros": mac}, lean
+
+
+@item("C09_REVERSE")
+def _reverse(repo):
+    """`Value::reverse`: one arm per `Enumerator` variant, each of which reverses"""
+    src = _nocomment(read(repo, VMOD))
+    body = fn_body(src, r"pub fn reverse\(&self\) -> Result<Value, Error>")
+    om = fn_body(body, r"ValueRepr::Object\(ref o\) => match o\.enumerate\(\)\s*\{")
+    arms = []
+    for pat, expr in _arms(om):
+        v = re.findall(r"Enumerator::(\w+)", pat)
+        if len(v) != 1:
+            raise KeyError("reverse arm " + pat)
+        e = re.sub(r"\s+", " ", expr)
+        if v[0] == "NonEnumerable":
+            how = "none" if e == "None" else None
+        elif v[0] == "Empty":
+            how = "empty" if "None::<Value>.into_iter()" in e else None
+        elif v[0] == "Seq":
+            how = "positions-rev" if "(0..l).rev().map(move |idx|" in e else None
+        elif v[0] in ("Iter", "KeyValueIter", "Values"):
+            how = "collect-reverse" if "v.reverse();" in e and "Box::new(v.iter().cloned())" in e else None
+        elif v[0] in ("RevIter", "RevKeyValueIter"):
+            # `forward`: the double-ended iterator is boxed as it is, i.e. NOT reversed (the model and
+            # the expectations follow what the source says; Python's answer is the oracle's)
+            how = ("rev" if re.search(r"Box::new\(iter\.rev\(\)", e) else
+                   "forward" if re.search(r"Box::new\(iter\) as Box<dyn Iterator", e) else None)
+            if "for_restart.reverse()" not in e:
+                how = None
+        elif v[0] == "Str":
+            how = "rev" if "s.iter().rev().copied()" in e else None
+        else:
+            how = None
+        if how is None:
+            raise KeyError("Value::reverse: arm %s does not reverse" % v[0])
+        arms.append((v[0], how))
+    flat = re.sub(r"\s+", " ", body)
+    for piece in ("ValueRepr::String(ref s, _) => Some(Value::from(s.chars().rev().collect::<String>()))",
+                  "Some(Value::from(s.as_str().chars().rev().collect::<String>()))",
+                  "b.iter().rev().copied().collect::<Vec<_>>()"):
+        if piece not in flat:
+            raise KeyError("Value::reverse: string / bytes arm")
+    lean = "def c09ReverseArms : List (String × String) := %s" % _pairs(arms)
+    return arms, lean
+
+
+@item("C09_MERGESEQ_FLATTEN")
+def _mergeseq_flatten(repo):
+    """`MergeSeq::with_repr` flattens nested chains beyond `MAX_DEPTH` with an explicit stack
+    (`push_flattened_value`): pop the last pending value, replace a `MergeSeq` by its operands in
+    REVERSE order (so that the first operand is popped first), append anything else"""
+    src = _nocomment(read(repo, "minijinja/src/value/merge_object.rs"))
+    pf = re.sub(r"\s+", " ", fn_body(src, r"fn push_flattened_value\(value: &Value, values: &mut Vec<Value>\)")).strip()
+    want = ("let mut pending = vec![value.clone()]; while let Some(value) = pending.pop() { "
+            "if let Some(seq) = value.downcast_object_ref::<Self>() { pending.extend(seq.values.iter().rev().cloned()); } "
+            "else { values.push(value); } }")
+    if pf != want:
+        raise KeyError("MergeSeq::push_flattened_value shape")
+    wr = re.sub(r"\s+", " ", fn_body(src, r"fn with_repr\(mut values: Vec<Value>, repr: ObjectRepr\) -> Self"))
+    for piece in ("if depth > Self::MAX_DEPTH { let mut flattened = Vec::new(); for value in values.iter() { Self::push_flattened_value(value, &mut flattened); } values = flattened;",
+                  "total_len: values.iter().map(|v| v.len()).sum(),"):
+        if piece not in wr:
+            raise KeyError("MergeSeq::with_repr shape: " + piece[:40])
+    steps = ["pop-last", "merge:extend-operands-reversed", "other:push"]
+    return steps, "def c09MergeFlatten : List String := %s" % _lst(steps)
